@@ -87,7 +87,7 @@ class FramingServer:
         sl = self.seal.sig_len
         hdr = refdc.pdu_header(refdc.PT_RESPONSE, fl, 16 + 8 + len(rbody) + 8 + sl, sl, h["call_id"]) + \
             struct.pack("<IHBB", {"padded": len(rbody), "unpadded": len(self.reply_stub), "zero": 0}[self.alloc], 0, 0, 0)
-        rtr8 = struct.pack("<BBBBI", a["type"], a["level"], self.reply_pad, 0, a["ctx"])
+        rtr8 = struct.pack("<BBBBI", a["type"], a["level"], self.reply_pad, (0, 0x5A, 0xFF)[(self.reply_pad + len(self.reply_stub)) % 3], a["ctx"])   # auth_reserved: ignored on receipt
         rct, rsig = provider.server_seal(self.seal, seq, hdr, rbody, rtr8, bool(used))
         return hdr + rct + rtr8 + rsig
 
